@@ -249,7 +249,9 @@ def run(ctx: Ctx) -> None:
         shapes[shape(c)] = shapes.get(shape(c), 0) + 1
     ctx.notes["statement_kind_sets"] = len(shapes)
     traces = [{"ev": [_strip(e)]} for e in evs]
-    verdicts = ctx.validate("PyMiniDataTrace", traces, timeout=2400)
+    # PyMiniDataTrace evaluates one clause per state (phase variable `ph`), so one TLC run with -continue already lists
+    # every violated formula of every trace: the per-formula completion pass of Ctx.validate is not needed
+    verdicts = ctx.validate("PyMiniDataTrace", traces, timeout=2400, _single=True)
     drift_counts: dict[str, int] = {}
     for idx, bad in sorted(verdicts.items()):
         e, c = evs[idx], cs[idx]
